@@ -224,6 +224,15 @@ Proof.
 Qed.
 Print Assumptions heartbeat_ended_only_by_own_cancel_or_unlock.
 
+(* The shape of a heartbeat iteration: between `now := time.Now()` and the stamp that records it, the iteration
+   issues on the heartbeat file exactly open, write, close, (deferred) close, then Chtimes — the three latency slots
+   of the holder machine.  No Sync, no Stat, no second write: a blocking operation added to the iteration delays the
+   landing of a time taken BEFORE it, so the heartbeat is born old.  (Fact f_wtf_ops of loop_ok; the correspondence
+   compares this list with the operations the shim records.) *)
+Theorem heartbeat_iteration_shape : iter_ops_f gen_facts = [BOpenFile; BWrite; BClose; BClose; BChtimes].
+Proof. use_loop L. exact (iter_ops_f_eq gen_facts L). Qed.
+Print Assumptions heartbeat_iteration_shape.
+
 (* ---- non-vacuity: the hypotheses are satisfiable and the conclusions are not trivially true ---- *)
 
 Definition ex_acq := mkAcq (20000) (150000) (40000).                        (* 20 us, 150 us, 40 us *)
